@@ -107,8 +107,8 @@ define_ops! {
 
 width_list!();
 
-const W_EDGE_QUICK: &[usize] = &[63, 64, 65, 72, 127, 128, 129, 192, 200, 256, 257, 320, 384, 448, 512];
-const W_EDGE: &[usize] = &[60, 63, 64, 65, 72, 120, 127, 128, 129, 191, 192, 193, 200, 250, 255, 256, 257, 320, 384, 511, 512, 513];
+const W_EDGE_QUICK: &[usize] = &[17, 33, 39, 40, 63, 64, 65, 72, 127, 128, 129, 192, 200, 256, 257, 320, 384, 448, 512];
+const W_EDGE: &[usize] = &[17, 24, 31, 32, 33, 39, 40, 60, 63, 64, 65, 72, 120, 127, 128, 129, 191, 192, 193, 200, 250, 255, 256, 257, 320, 384, 511, 512, 513];
 
 fn u(v: &BigUint, bits: usize) -> V {
     V::U(to_limbs(v, bits))
@@ -791,6 +791,22 @@ fn c03(r: &Runner) {
             }
         });
     }
+    // divisors at both ends of every row of the reciprocal seed table
+    if !SWEEP {
+        row_sweep(r, false);
+        let words = table_row_words(if r.is_thorough() { 256 } else { 32 });
+        for bits in [64usize, 128, 200, 256] {
+            let num: Vec<Limbs> = vec![max_limbs(bits), golden(nlimbs(bits)).iter().enumerate().map(|(i, x)| if i == nlimbs(bits) - 1 { x & mask(bits) } else { *x }).collect()];
+            r.universe(&format!("divisors led by {} words at the ends of the 256 reciprocal-table rows x 2 numerators", words.len()), bits, words.len(), |i, l| {
+                for d in row_divisors(bits, words[i]) {
+                    for nn in &num {
+                        l.states(1);
+                        exec(l, bits, Op::div_rem, &[vu(nn), vu(&d)]);
+                    }
+                }
+            });
+        }
+    }
     // derived universe
     let wsv: Vec<usize> = if SWEEP { WIDTHS.iter().copied().filter(|w| *w >= 64).collect() } else if r.is_thorough() { vec![64, 65, 127, 128, 129, 191, 192, 193, 255, 256, 257, 320, 384, 512] } else { vec![128, 129, 192, 256, 257] };
     for &bits in &wsv {
@@ -817,6 +833,101 @@ fn c03(r: &Runner) {
             }
         });
     }
+}
+
+/// Leading words at both ends of every row of the 256-row reciprocal seed table (top 9 bits = row): 256 rows x 2 ends x
+/// `per` prefixes spread over the first / last 2^19 values of the 40-bit prefix. A wrong table entry or seed
+/// refinement shows at a row end (see C14), here it is driven through the Uint API.
+fn table_row_words(per: u64) -> Vec<u64> {
+    let mut out = vec![];
+    for row in 256u64..512 {
+        for j in 0..per {
+            let off = j * ((1 << 19) / per);
+            out.push((row << 55) | (off << 24) | 0x9e_3779);
+            out.push((row << 55) | (((1u64 << 31) - 1 - off) << 24) | 0x61_c886);
+        }
+    }
+    out
+}
+/// divisors of `bits` bits whose leading word (after normalisation) is `w`, in three shapes: one limb (shifted down by
+/// 0 and 5 bits), two limbs and full length
+fn row_divisors(bits: usize, w: u64) -> Vec<Limbs> {
+    let n = nlimbs(bits);
+    let m = pow2(bits);
+    let mut out = vec![];
+    let g = golden(n);
+    for shift in [0usize, 5] {
+        let v = BigUint::from(w >> shift);
+        if v < m && !v.is_zero() {
+            out.push(to_limbs(&v, bits));
+        }
+    }
+    for len in [2usize, n] {
+        if len < 2 || len > n {
+            continue;
+        }
+        let mut l: Limbs = (0..len).map(|i| g[i]).collect();
+        l[len - 1] = w;
+        let v = big(&l) >> (64 * len).saturating_sub(bits).min(63);
+        if v < m && !v.is_zero() {
+            out.push(to_limbs(&v, bits));
+        }
+    }
+    out.sort();
+    out.dedup();
+    out
+}
+
+/// DENSE sweep through the Uint API: for every row of the reciprocal seed table the first and last 2^K values of the
+/// 40-bit prefix of a normalised one-word divisor (and of the leading word of a two-word divisor), compared in a tight
+/// loop with native u64 / u128 division; mismatches (and panics) are re-run through `exec`.
+fn row_sweep(r: &Runner, modular: bool) {
+    let k: u32 = if r.is_thorough() { 23 } else { 21 };
+    r.universe(&format!("256 reciprocal-table rows x first / last / Newton-maximum 2^{k} prefixes: {} at 64 and 128 bits (tight loop, native reference)", if modular { "reduce_mod / mul_mod" } else { "div_rem" }), 128, 256 * 48, |i, l| {
+        let row = 256 + (i / 48) as u64;
+        let part = (i % 48) as u64;
+        let per = (1u64 << k) / 16;
+        // third segment: around the interior point of the row where the table seed is exact (v0 * d40 = 2^50, see C14)
+        let v0 = ((1u64 << 19) - 3 * (1 << 8)) / row;
+        let centre = (((1u64 << 50) / v0).clamp(row << 31, (row << 31) | ((1 << 31) - 1))) & ((1 << 31) - 1);
+        let mut n = 0u64;
+        let n64 = 0xFEDC_BA98_7654_3210u64;
+        let n128 = 0xFFFF_FFFF_FFFF_FFFF_0123_4567_89AB_CDEFu128;
+        for j in 0..per {
+            let off = if part < 16 { part * per + j } else if part < 32 { (1u64 << 31) - 1 - ((part - 16) * per + j) } else { (centre.saturating_sub(8 * per) + (part - 32) * per + j).min((1 << 31) - 1) };
+            let d = (row << 55) | (off << 24) | if part < 16 { 0x00_0001 } else if part < 32 { 0xff_fffe } else if j % 2 == 0 { 0 } else { 0xff_ffff };
+            // the two-limb forms on every 8th prefix
+            let wide = j % 8 == 0;
+            let d2 = ((d as u128) << 64) | 0x9E37_79B9_7F4A_7C15;
+            let good = vharness::runner::guarded(|| {
+                let (a, b) = (Uint::<64, 1>::from(n64), Uint::<64, 1>::from(d));
+                let (x, y) = (Uint::<128, 2>::from(n128), Uint::<128, 2>::from(d));
+                let (x2, y2) = (Uint::<128, 2>::MAX, Uint::<128, 2>::from(d2));
+                if modular {
+                    a.reduce_mod(b) == Uint::from(n64 % d) && (!wide || (x.reduce_mod(y) == Uint::from(n128 % d as u128) && x2.reduce_mod(y2) == Uint::from(u128::MAX % d2) && a.mul_mod(a, b) == Uint::from(((n64 as u128 * n64 as u128) % d as u128) as u64)))
+                } else {
+                    a.div_rem(b) == (Uint::from(n64 / d), Uint::from(n64 % d)) && (!wide || (x.div_rem(y) == (Uint::from(n128 / d as u128), Uint::from(n128 % d as u128)) && x2.div_rem(y2) == (Uint::from(u128::MAX / d2), Uint::from(u128::MAX % d2))))
+                }
+            })
+            .unwrap_or(false);
+            n += if wide { 4 } else { 1 };
+            if !good {
+                let w = |v: u128, bits: usize| V::U(to_limbs(&BigUint::from(v), bits));
+                if modular {
+                    exec(l, 64, Op::reduce_mod, &[w(n64 as u128, 64), w(d as u128, 64)]);
+                    exec(l, 64, Op::mul_mod, &[w(n64 as u128, 64), w(n64 as u128, 64), w(d as u128, 64)]);
+                    exec(l, 128, Op::reduce_mod, &[w(n128, 128), w(d as u128, 128)]);
+                    exec(l, 128, Op::reduce_mod, &[w(u128::MAX, 128), w(d2, 128)]);
+                } else {
+                    exec(l, 64, Op::div_rem, &[w(n64 as u128, 64), w(d as u128, 64)]);
+                    exec(l, 128, Op::div_rem, &[w(n128, 128), w(d as u128, 128)]);
+                    exec(l, 128, Op::div_rem, &[w(u128::MAX, 128), w(d2, 128)]);
+                }
+            }
+        }
+        l.states(per);
+        l.bulk(if modular { "reduce_mod" } else { "div_rem" }, n, n, 1);
+    });
 }
 
 /// structureless operands: n = q*d + r with q, d assembled from the G alphabet (exact multiples whose
@@ -963,6 +1074,24 @@ fn c10(r: &Runner) {
                     exec(l, bits, Op::inv_mod, &[x, y]);
                 }
                 dfs(l, bits, &lim, a, b, *dev, maxdev);
+            });
+        }
+    }
+    // moduli at both ends of every row of the reciprocal seed table
+    if !SWEEP {
+        row_sweep(r, true);
+        let words = table_row_words(if r.is_thorough() { 256 } else { 32 });
+        for bits in [64usize, 128, 200, 256] {
+            let g = golden(nlimbs(bits) + 1);
+            let a: Limbs = g[1..].iter().enumerate().map(|(i, x)| if i == nlimbs(bits) - 1 { x & mask(bits) } else { *x }).collect();
+            let b = max_limbs(bits);
+            r.universe(&format!("moduli led by {} words at the ends of the 256 reciprocal-table rows", words.len()), bits, words.len(), |i, l| {
+                for md in row_divisors(bits, words[i]) {
+                    l.states(1);
+                    exec(l, bits, Op::reduce_mod, &[vu(&a), vu(&md)]);
+                    exec(l, bits, Op::mul_mod, &[vu(&a), vu(&b), vu(&md)]);
+                    exec(l, bits, Op::add_mod, &[vu(&a), vu(&b), vu(&md)]);
+                }
             });
         }
     }
